@@ -61,6 +61,8 @@ std::string showList(const std::vector<T>& v) {
 	}
 	return o.str();
 }
+// runs fn in a forked child (watchdog `timeoutSec`); returns its result, or "crash signal=N" / "fail rc=N" (rc 86 = sanitizer report)
+std::string forked(const std::function<std::string()>& fn, unsigned timeoutSec = 20);
 std::string hexEncode(const std::string& bytes);
 std::string hexDecode(const std::string& hex);
 } // namespace vh
